@@ -904,5 +904,53 @@ def r17_15(ctx):
                  "first reset / edit on it raises ValueError in _update_menu()", f.loc(st)))
 
 
+def r17_16(ctx):
+    """R17.16 the dialog's `accepted` is the setter's `stored`: (a) Symbol.set_value() converts `y` / `n` to 2 / 0 for bool options
+    only and refuses a value for its form only (C16 R16.13) - check_valid() accepts every text for a string option; (b) every
+    handler of the application that reacts to a key or a list event brings the model's highlighted row up to date
+    (`_sync_sel_node_i()`) before it calls a model method that reads `sel_node_i`: the list widget moves its cursor without
+    telling the model, and restore_default() / _update_menu() on a stale row raise ValueError once the edit hides that row."""
+    from . import c16
+    from .common import delegate
+    delegate(ctx, c16.r16_13, lambda c: True)
+    repo = ctx.repo
+    # model methods that read the highlighted row, directly or through other methods of the model
+    meths = repo.methods(f"{MODEL}:MenuConfigState")
+    reads = {m for m, fn in meths.items() if any(isinstance(x, ast.Attribute) and x.attr == "sel_node_i" and isinstance(x.ctx, ast.Load) and ast.unparse(x.value) == "self"
+                                                 for x in ast.walk(fn.node))}
+    changed = True
+    while changed:
+        changed = False
+        for m, fn in meths.items():
+            if m in reads:
+                continue
+            if any(isinstance(x, ast.Attribute) and ast.unparse(x.value) == "self" and x.attr in reads for x in ast.walk(fn.node)):
+                reads.add(m)
+                changed = True
+    if "_update_menu" not in reads or "restore_default" not in reads:
+        raise AnalysisError(f"model methods reading sel_node_i: {sorted(reads)}")
+    n = 0
+    for name, fn in repo.methods(f"{APP}:MenuConfigApp").items():
+        if not (name.startswith("action_") or name.startswith("_on_") or name.startswith("on_")):
+            continue
+        uses = [x for x in ast.walk(fn.node) if isinstance(x, ast.Attribute) and ast.unparse(x.value) == "self.state" and x.attr in (reads | {"sel_node_i"})
+                and isinstance(x.ctx, ast.Load) and repo.enclosing_func(x) is fn]
+        if not uses:
+            continue
+        ctx.analysed(fn.qual)
+        simple = (ast.If, ast.For, ast.While, ast.With, ast.Try)
+        fl = Flow(fn.node, events=lambda s_: ["SYNC"] if not isinstance(s_, simple) and any(
+            isinstance(c, ast.Call) and ast.unparse(c.func) == "self._sync_sel_node_i" for c in ast.walk(s_)) else [], track_guards=False).run()
+        for u in uses:
+            n += 1
+            construct = f"{fn.short}/`self.state.{u.attr}` after the highlighted row was brought up to date"
+            st = repo.enclosing_stmt(u)
+            (ctx.ok(construct, fn.loc(u)) if "SYNC" in (fl.events_at(st) or set()) else
+             ctx.bad(construct, "the model still names the row that was highlighted at the last refresh: the action is applied to (or re-locates) a stale row - ValueError in "
+                     "_update_menu() when the edit hides it", fn.loc(u)))
+    if n < 4:
+        raise AnalysisError(f"only {n} uses of the highlighted row in application handlers")
+
+
 def rules():
-    return [("R17.15", r17_15, 2), ("R17.14", r17_14, 1), ("R17.13", r17_13, 1), ("R17.12", r17_12, 1), ("R17.11", r17_11, 2), ("R17.10", r17_10, 3), ("R17.9", r17_9, 2), ("R17.8", r17_8, 6), ("R17.7", r17_7, 5), ("R17.1", r17_1, 6), ("R17.5", r17_5, 4), ("R17.2", r17_2, 13), ("R17.3", r17_3, 4), ("R17.4", r17_4, 6), ("R17.6", r17_6, 3)]
+    return [("R17.16", r17_16, 6), ("R17.15", r17_15, 2), ("R17.14", r17_14, 1), ("R17.13", r17_13, 1), ("R17.12", r17_12, 1), ("R17.11", r17_11, 2), ("R17.10", r17_10, 3), ("R17.9", r17_9, 2), ("R17.8", r17_8, 6), ("R17.7", r17_7, 5), ("R17.1", r17_1, 6), ("R17.5", r17_5, 4), ("R17.2", r17_2, 13), ("R17.3", r17_3, 4), ("R17.4", r17_4, 6), ("R17.6", r17_6, 3)]
